@@ -316,7 +316,8 @@ fn err_class(e: &RustcError) -> &'static str {
         "E0428" => "dupName",
         "E0133" => "e0133",
         "E0054" => "e0054",
-        "E0412" | "E0425" | "E0433" | "E0422" | "E0432" => "unresolved",
+        "E0412" | "E0425" | "E0433" | "E0422" => "unresolved",
+        "E0432" => "e0432",
         "E0423" => "e0423",
         "E0530" => "e0530",
         "E0588" => "e0588",
